@@ -22,12 +22,28 @@
 //! least instant whose R-tz civil date is that day, found by scanning the
 //! pieces that overlap the civil day (not by resolving "midnight").
 //!
+//! Extensions (coverage audit): a second block of the span pool (every time
+//! unit alone with and without calendar units; day/week counts on both sides
+//! of the absolute epoch-day range and of the whole civil range, alone and
+//! mixed with a second unit) run from the sub-neighbourhood {0, +-1 ns, +-1 h,
+//! +-24 h} of every transition, the landers and the anchors; `+=` / `-=` and
+//! the by-reference / `ZonedArithmetic` argument forms; `SignedDuration` and
+//! `std::time::Duration` values around 2^63 s; whole-second sums at the first
+//! and last second of the range; `first_of_year`, `last_of_year`,
+//! `nth_weekday`, `nth_weekday_of_month` and the field accessors
+//! (`days_in_month`, `in_leap_year`, ...) of `Zoned`; every `ZonedWith` setter
+//! incl. out-of-range values and multi-field chains, and the product
+//! offset x offset_conflict x disambiguation; `Timestamp` arithmetic (time
+//! units exact, calendar units an error, saturating variants, operators);
+//! synthetic zones in the quick tier; POSIX-string and fixed-offset zones.
+//!
 //! F7 (POSIX rule transitions evaluated per calendar year and clamped to it)
 //! is C03/C04's subject: cases that touch the neighbourhood of such a rule
 //! transition are skipped and counted.
 
-use jiff::tz::TimeZone;
-use jiff::{SignedDuration, Span, Timestamp, Zoned};
+use jiff::civil::{Era, Weekday};
+use jiff::tz::{Disambiguation, Offset, OffsetConflict, TimeZone};
+use jiff::{SignedDuration, Span, Timestamp, Zoned, ZonedWith};
 use rayon::prelude::*;
 use refmodel::{cal, tz as rtz};
 use serde_json::json;
@@ -78,6 +94,17 @@ fn to_span(sp: &Sp) -> Span {
     ];
     assert_eq!(&back, sp, "span construction round trip");
     s
+}
+
+/// Spans equal to one hour whose calendar fields were non-zero at some point
+/// of their construction (setter to zero, multiplication by zero)
+fn reset_spans() -> Vec<Span> {
+    vec![
+        Span::new().days(1).days(0).hours(1),
+        Span::new().hours(1).years(5).years(0),
+        Span::new().months(3).weeks(2).checked_mul(0).expect("x0").hours(1),
+        Span::new().days(-1).negate().days(0).hours(1),
+    ]
 }
 
 fn fmt_sp(sp: &Sp) -> String {
@@ -137,43 +164,128 @@ fn time_parts(thorough: bool) -> Vec<[i64; 6]> {
     v
 }
 
+/// time parts combined only with the calendar sub-alphabet `cal_sub()`:
+/// every time unit alone (so that a span whose only time unit is seconds,
+/// milliseconds or microseconds is present with and without calendar units),
+/// the unit carries, and the single-unit thresholds of 32/64-bit paths
+fn time_parts_light(thorough: bool) -> Vec<[i64; 6]> {
+    let mut v: Vec<[i64; 6]> = vec![
+        [0, 0, 1, 0, 0, 0],
+        [0, 0, 0, 1, 0, 0],
+        [0, 0, 0, 0, 1, 0],
+        [0, 0, 0, 999, 999, 999],
+    ];
+    if thorough {
+        v.extend([
+            [0, 1, 0, 0, 0, 0],
+            [0, 0, 0, 0, 0, 1_000_000_000],
+            [0, 0, 2_147_483_648, 0, 0, 0],
+            [2_562_048, 0, 0, 0, 0, 0],
+            [0, 0, 0, 631_107_417_600_000, 0, 0],
+            [0, 0, 0, 0, 631_107_417_600_000_000, 0],
+            [0, 10_518_456_960, 0, 0, 0, 0],
+        ]);
+    }
+    v
+}
+
+/// indices into `cal_parts()` of the calendar sub-alphabet: 1 d, 1 mo, 1y1mo1w1d
+const CAL_SUB: [usize; 3] = [0, 3, 8];
+
+/// calendar parts combined only with the time sub-alphabet {none, 1 ns, 1 h}:
+/// day/week counts on both sides of the absolute Unix-epoch-day range
+/// (-4 371 587 ..= 2 932 896) and of the whole civil range (7 304 483 days),
+/// alone and mixed with a second calendar unit. A result is in range only
+/// from a start near the other end of the civil range (the zone anchors).
+fn cal_parts_big(thorough: bool) -> Vec<[i64; 4]> {
+    let mut v: Vec<[i64; 4]> = vec![
+        [0, 0, 0, 2_932_897],
+        [0, 0, 1, 2_932_897],
+        [0, 1, 0, 4_371_588],
+        [0, 0, 418_986, 0],
+        [0, 0, 418_986, 1],
+    ];
+    if thorough {
+        v.extend([
+            [0, 0, 0, 2_932_896],
+            [0, 0, 0, 4_371_588],
+            [0, 0, 1, 4_371_588],
+            [1, 0, 0, 2_932_897],
+            [0, 0, 624_513, 1],
+            [0, 0, 0, 7_304_483],
+            [0, 0, 1, 7_304_476],
+            [0, 0, 1_043_497, 4],
+            [0, 1, 0, 7_304_450],
+            [19_997, 11, 4, 30],
+        ]);
+    }
+    v
+}
+
 struct PoolSpan {
     sp: Sp,
     span: Span,
     /// index of the (signed) calendar part: 0 = none, +k / -k
     cal_id: i32,
+    /// calendar part from `cal_parts_big`
+    big: bool,
+    /// member of the second block (light time parts, big calendar parts),
+    /// which is run from a sub-neighbourhood of every transition
+    second: bool,
 }
 
 fn span_pool(thorough: bool) -> (Vec<PoolSpan>, Vec<Sp>) {
     let cals = cal_parts(thorough);
     let times = time_parts(thorough);
+    let times_light = time_parts_light(thorough);
+    let cals_big = cal_parts_big(thorough);
     let mut out = vec![];
-    let mut push = |sp: Sp, cal_id: i32| {
-        out.push(PoolSpan { sp, span: to_span(&sp), cal_id });
+    let mut push = |sp: Sp, cal_id: i32, big: bool, second: bool| {
+        out.push(PoolSpan { sp, span: to_span(&sp), cal_id, big, second });
     };
-    push([0; 10], 0);
-    for sign in [1i64, -1] {
-        // time only
-        for t in &times {
-            let mut sp = [0i64; 10];
+    let mk = |sign: i64, c: Option<&[i64; 4]>, t: Option<&[i64; 6]>| -> Sp {
+        let mut sp = [0i64; 10];
+        if let Some(c) = c {
+            for i in 0..4 {
+                sp[i] = sign * c[i];
+            }
+        }
+        if let Some(t) = t {
             for i in 0..6 {
                 sp[4 + i] = sign * t[i];
             }
-            push(sp, 0);
+        }
+        sp
+    };
+    push([0; 10], 0, false, false);
+    for sign in [1i64, -1] {
+        // time only
+        for t in &times {
+            push(mk(sign, None, Some(t)), 0, false, false);
         }
         for (ci, c) in cals.iter().enumerate() {
-            let mut base = [0i64; 10];
-            for i in 0..4 {
-                base[i] = sign * c[i];
-            }
             let id = sign as i32 * (ci as i32 + 1);
-            push(base, id);
+            push(mk(sign, Some(c), None), id, false, false);
             for t in &times {
-                let mut sp = base;
-                for i in 0..6 {
-                    sp[4 + i] = sign * t[i];
-                }
-                push(sp, id);
+                push(mk(sign, Some(c), Some(t)), id, false, false);
+            }
+        }
+    }
+    // second block (appended, so that the minimal case of an existing
+    // signature stays what it was): light time parts x calendar sub-alphabet,
+    // big calendar parts x time sub-alphabet
+    for sign in [1i64, -1] {
+        for t in &times_light {
+            push(mk(sign, None, Some(t)), 0, false, true);
+            for &ci in &CAL_SUB {
+                push(mk(sign, Some(&cals[ci]), Some(t)), sign as i32 * (ci as i32 + 1), false, true);
+            }
+        }
+        for (bi, c) in cals_big.iter().enumerate() {
+            let id = sign as i32 * (1_000 + bi as i32);
+            push(mk(sign, Some(c), None), id, true, true);
+            for t in [&times[0], &times[2]] {
+                push(mk(sign, Some(c), Some(t)), id, true, true);
             }
         }
     }
@@ -181,11 +293,7 @@ fn span_pool(thorough: bool) -> (Vec<PoolSpan>, Vec<Sp>) {
     let mut cal_only = vec![];
     for sign in [1i64, -1] {
         for c in &cals {
-            let mut base = [0i64; 10];
-            for i in 0..4 {
-                base[i] = sign * c[i];
-            }
-            cal_only.push(base);
+            cal_only.push(mk(sign, Some(c), None));
         }
     }
     (out, cal_only)
@@ -326,6 +434,10 @@ struct Tally {
     taint: AtomicU64,
     clamped: AtomicU64,
     op_panics: AtomicU64,
+    assign_ops: AtomicU64,
+    big_cal_ok: AtomicU64,
+    big_cal_mixed_ok: AtomicU64,
+    time_single_with_cal_ok: AtomicU64,
     sat_min: AtomicU64,
     sat_max: AtomicU64,
     skip_offset: AtomicU64,
@@ -342,8 +454,19 @@ struct Tally {
     day_23h: AtomicU64,
     day_25h: AtomicU64,
     day_other: AtomicU64,
+    day_half: AtomicU64,
+    day_47h_up: AtomicU64,
+    day_before_skipped: AtomicU64,
     with_kept_offset_in_fold: AtomicU64,
     with_invalid: AtomicU64,
+    nth_of_month_found: AtomicU64,
+    with_opt_err: AtomicU64,
+    with_opt_gap: AtomicU64,
+    with_opt_fold: AtomicU64,
+    ts_ok: AtomicU64,
+    ts_err: AtomicU64,
+    ts_op_panics: AtomicU64,
+    ts_cal_spans: AtomicU64,
     zones: AtomicU64,
     zones_not_loaded: AtomicU64,
     transitions: AtomicU64,
@@ -645,6 +768,16 @@ macro_rules! six_ops {
         let add: Want = $add;
         let sub: Want = $sub;
         let sign: i8 = $sign;
+        // the compound-assignment operators and the by-reference argument
+        // forms are exercised wherever the operators are also driven into
+        // their documented panic (starts exactly at a transition, anchors)
+        let mask: u8 = $ops_err;
+        // bit 0: drive the operators into their documented panic;
+        // bit 1: compound assignment and by-reference forms;
+        // bit 2: drive those into the panic too
+        let ops_err = mask & 1 != 0;
+        let more = mask & 2 != 0;
+        let more_err = mask & 4 != 0;
         let mut n = 0u64;
         cx.count_want(add);
         cx.count_want(sub);
@@ -656,9 +789,16 @@ macro_rules! six_ops {
             cx.checked($sec, concat!("Zoned::checked_add(", $kind, ")"), "value", &|| $case("checked_add"), guard(|| z.checked_add(x).ok().map(|v| cx.view(&v))), add);
             cx.total($sec, concat!("Zoned::saturating_add(", $kind, ")"), &|| $case("saturating_add"), guard(|| cx.view(&z.saturating_add(x))), add.or(clamp));
             n += 2;
-            if add != Want::Err || $ops_err {
+            if add != Want::Err || ops_err {
                 cx.operator($sec, concat!("&Zoned + ", $kind), &|| $case("+"), guard(|| cx.view(&(z + x))), add);
                 n += 1;
+            }
+            if more && (add != Want::Err || more_err) {
+                cx.operator($sec, concat!("Zoned += ", $kind), &|| $case("+="), guard(|| { let mut m = z.clone(); m += x; cx.view(&m) }), add);
+                cx.checked($sec, concat!("Zoned::checked_add(&", $kind, ")"), "value", &|| $case("checked_add&"), guard(|| z.checked_add(&x).ok().map(|v| cx.view(&v))), add);
+                cx.total($sec, concat!("Zoned::saturating_add(&", $kind, ")"), &|| $case("saturating_add&"), guard(|| cx.view(&z.saturating_add(jiff::ZonedArithmetic::from(&x)))), add.or(clamp));
+                cx.t.assign_ops.fetch_add(1, Relaxed);
+                n += 3;
             }
         }
         if sub.defined() {
@@ -669,9 +809,16 @@ macro_rules! six_ops {
             cx.checked($sec, concat!("Zoned::checked_sub(", $kind, ")"), "value", &|| $case("checked_sub"), guard(|| z.checked_sub(x).ok().map(|v| cx.view(&v))), sub);
             cx.total($sec, concat!("Zoned::saturating_sub(", $kind, ")"), &|| $case("saturating_sub"), guard(|| cx.view(&z.saturating_sub(x))), sub.or(clamp));
             n += 2;
-            if sub != Want::Err || $ops_err {
+            if sub != Want::Err || ops_err {
                 cx.operator($sec, concat!("&Zoned - ", $kind), &|| $case("-"), guard(|| cx.view(&(z - x))), sub);
                 n += 1;
+            }
+            if more && (sub != Want::Err || more_err) {
+                cx.operator($sec, concat!("Zoned -= ", $kind), &|| $case("-="), guard(|| { let mut m = z.clone(); m -= x; cx.view(&m) }), sub);
+                cx.checked($sec, concat!("Zoned::checked_sub(&", $kind, ")"), "value", &|| $case("checked_sub&"), guard(|| z.checked_sub(&x).ok().map(|v| cx.view(&v))), sub);
+                cx.total($sec, concat!("Zoned::saturating_sub(&", $kind, ")"), &|| $case("saturating_sub&"), guard(|| cx.view(&z.saturating_sub(jiff::ZonedArithmetic::from(&x)))), sub.or(clamp));
+                cx.t.assign_ops.fetch_add(1, Relaxed);
+                n += 3;
             }
         }
         n
@@ -679,10 +826,363 @@ macro_rules! six_ops {
 }
 
 // ---------------------------------------------------------------------------
+// Zoned::with(): field edits and the resolution options
+// ---------------------------------------------------------------------------
+
+#[derive(Clone, Copy, Debug)]
+enum Ed {
+    Year(i64),
+    EraCE(i64),
+    EraBCE(i64),
+    Month(i64),
+    Day(i64),
+    Doy(i64),
+    DoyNl(i64),
+    Hour(i64),
+    Minute(i64),
+    Second(i64),
+    Ms(i64),
+    Us(i64),
+    Ns(i64),
+    Subsec(i64),
+    Date(i64, i64, i64),
+    Time(i64, i64, i64, i64),
+}
+
+impl Ed {
+    fn name(&self) -> &'static str {
+        match self {
+            Ed::Year(_) => "year",
+            Ed::EraCE(_) | Ed::EraBCE(_) => "era_year",
+            Ed::Month(_) => "month",
+            Ed::Day(_) => "day",
+            Ed::Doy(_) => "day_of_year",
+            Ed::DoyNl(_) => "day_of_year_no_leap",
+            Ed::Hour(_) => "hour",
+            Ed::Minute(_) => "minute",
+            Ed::Second(_) => "second",
+            Ed::Ms(_) => "millisecond",
+            Ed::Us(_) => "microsecond",
+            Ed::Ns(_) => "nanosecond",
+            Ed::Subsec(_) => "subsec_nanosecond",
+            Ed::Date(..) => "date",
+            Ed::Time(..) => "time",
+        }
+    }
+    fn show(&self) -> String {
+        match *self {
+            Ed::EraCE(v) => format!("era_year({},CE)", v),
+            Ed::EraBCE(v) => format!("era_year({},BCE)", v),
+            Ed::Date(a, b, c) => format!("date({},{},{})", a, b, c),
+            Ed::Time(a, b, c, d) => format!("time({},{},{},{})", a, b, c, d),
+            Ed::Year(v) | Ed::Month(v) | Ed::Day(v) | Ed::Doy(v) | Ed::DoyNl(v) | Ed::Hour(v) | Ed::Minute(v) | Ed::Second(v) | Ed::Ms(v) | Ed::Us(v) | Ed::Ns(v) | Ed::Subsec(v) => {
+                format!("{}({})", self.name(), v)
+            }
+        }
+    }
+}
+
+fn fmt_edits(eds: &[Ed]) -> String {
+    eds.iter().map(|e| format!(".{}", e.show())).collect()
+}
+fn sig_edits(eds: &[Ed]) -> String {
+    eds.iter().map(|e| format!(".{}", e.name())).collect()
+}
+
+/// the fields of a civil datetime, as the builder sees them
+#[derive(Clone, Copy)]
+struct Fields {
+    y: i64,
+    m: i64,
+    d: i64,
+    h: i64,
+    mi: i64,
+    s: i64,
+    ms: i64,
+    us: i64,
+    ns: i64,
+}
+
+impl Fields {
+    fn of(civil: i128) -> Fields {
+        let day = civil.div_euclid(DAY_NS) as i64;
+        let tod = civil.rem_euclid(DAY_NS);
+        let (y, m, d) = cal::civil_from_days(day);
+        let sec = (tod / NS) as i64;
+        let f = (tod % NS) as i64;
+        Fields { y, m, d, h: sec / 3_600, mi: (sec / 60) % 60, s: sec % 60, ms: f / 1_000_000, us: (f / 1_000) % 1_000, ns: f % 1_000 }
+    }
+}
+
+/// The documented meaning of a chain of setters: each replaces its own field,
+/// everything is validated together at build(); `day_of_year*` determine month
+/// and day; `subsec_nanosecond` together with one of millisecond /
+/// microsecond / nanosecond is an error. `None` = build() must fail.
+/// (Chains in which a later setter is documented to *override* an earlier one
+/// are limited to year / era_year.)
+fn apply_edits(f0: &Fields, eds: &[Ed]) -> Option<i128> {
+    let mut f = *f0;
+    let mut ok = true;
+    let mut doy: Option<(i64, bool)> = None;
+    let mut subsec: Option<i64> = None;
+    let mut part = false;
+    let rng = |v: i64, lo: i64, hi: i64| v >= lo && v <= hi;
+    for e in eds {
+        match *e {
+            Ed::Year(v) => {
+                ok &= rng(v, cal::MIN_YEAR, cal::MAX_YEAR);
+                f.y = v;
+            }
+            Ed::EraCE(v) => {
+                ok &= rng(v, 1, 9_999);
+                f.y = v;
+            }
+            Ed::EraBCE(v) => {
+                ok &= rng(v, 1, 10_000);
+                f.y = 1 - v;
+            }
+            Ed::Month(v) => {
+                ok &= rng(v, 1, 12);
+                f.m = v;
+            }
+            Ed::Day(v) => {
+                ok &= rng(v, 1, 31);
+                f.d = v;
+            }
+            Ed::Doy(v) => {
+                ok &= rng(v, 1, 366);
+                doy = Some((v, false));
+            }
+            Ed::DoyNl(v) => {
+                ok &= rng(v, 1, 365);
+                doy = Some((v, true));
+            }
+            Ed::Hour(v) => {
+                ok &= rng(v, 0, 23);
+                f.h = v;
+            }
+            Ed::Minute(v) => {
+                ok &= rng(v, 0, 59);
+                f.mi = v;
+            }
+            Ed::Second(v) => {
+                ok &= rng(v, 0, 59);
+                f.s = v;
+            }
+            Ed::Ms(v) => {
+                ok &= rng(v, 0, 999);
+                f.ms = v;
+                part = true;
+            }
+            Ed::Us(v) => {
+                ok &= rng(v, 0, 999);
+                f.us = v;
+                part = true;
+            }
+            Ed::Ns(v) => {
+                ok &= rng(v, 0, 999);
+                f.ns = v;
+                part = true;
+            }
+            Ed::Subsec(v) => {
+                ok &= rng(v, 0, 999_999_999);
+                subsec = Some(v);
+            }
+            Ed::Date(a, b, c) => {
+                f.y = a;
+                f.m = b;
+                f.d = c;
+            }
+            Ed::Time(a, b, c, d) => {
+                f.h = a;
+                f.mi = b;
+                f.s = c;
+                subsec = Some(d);
+            }
+        }
+    }
+    if !ok || (part && subsec.is_some()) {
+        return None;
+    }
+    let day = match doy {
+        None => {
+            if !cal::valid_date(f.y, f.m, f.d) {
+                return None;
+            }
+            cal::days_from_civil(f.y, f.m, f.d)
+        }
+        Some((n, no_leap)) => {
+            let leap = cal::is_leap(f.y);
+            let n = if no_leap {
+                if leap && n >= 60 {
+                    n + 1
+                } else {
+                    n
+                }
+            } else {
+                if n == 366 && !leap {
+                    return None;
+                }
+                n
+            };
+            cal::days_from_civil(f.y, 1, 1) + n - 1
+        }
+    };
+    let frac = subsec.unwrap_or(f.ms * 1_000_000 + f.us * 1_000 + f.ns);
+    Some(day as i128 * DAY_NS + (f.h * 3_600 + f.mi * 60 + f.s) as i128 * NS + frac as i128)
+}
+
+fn build_edits(mut w: ZonedWith, eds: &[Ed]) -> ZonedWith {
+    for e in eds {
+        w = match *e {
+            Ed::Year(v) => w.year(v as i16),
+            Ed::EraCE(v) => w.era_year(v as i16, Era::CE),
+            Ed::EraBCE(v) => w.era_year(v as i16, Era::BCE),
+            Ed::Month(v) => w.month(v as i8),
+            Ed::Day(v) => w.day(v as i8),
+            Ed::Doy(v) => w.day_of_year(v as i16),
+            Ed::DoyNl(v) => w.day_of_year_no_leap(v as i16),
+            Ed::Hour(v) => w.hour(v as i8),
+            Ed::Minute(v) => w.minute(v as i8),
+            Ed::Second(v) => w.second(v as i8),
+            Ed::Ms(v) => w.millisecond(v as i16),
+            Ed::Us(v) => w.microsecond(v as i16),
+            Ed::Ns(v) => w.nanosecond(v as i16),
+            Ed::Subsec(v) => w.subsec_nanosecond(v as i32),
+            Ed::Date(a, b, c) => w.date(jiff::civil::Date::new(a as i16, b as i8, c as i8).expect("pool date")),
+            Ed::Time(a, b, c, d) => w.time(jiff::civil::Time::new(a as i8, b as i8, c as i8, d as i32).expect("pool time")),
+        };
+    }
+    w
+}
+
+#[derive(Clone, Copy, Debug, PartialEq, Eq)]
+enum Conf {
+    Prefer,
+    AlwaysOffset,
+    AlwaysTz,
+    Reject,
+}
+impl Conf {
+    fn to(self) -> OffsetConflict {
+        match self {
+            Conf::Prefer => OffsetConflict::PreferOffset,
+            Conf::AlwaysOffset => OffsetConflict::AlwaysOffset,
+            Conf::AlwaysTz => OffsetConflict::AlwaysTimeZone,
+            Conf::Reject => OffsetConflict::Reject,
+        }
+    }
+}
+#[derive(Clone, Copy, Debug, PartialEq, Eq)]
+enum Dis {
+    Compat,
+    Earlier,
+    Later,
+    Reject,
+}
+impl Dis {
+    fn to(self) -> Disambiguation {
+        match self {
+            Dis::Compat => Disambiguation::Compatible,
+            Dis::Earlier => Disambiguation::Earlier,
+            Dis::Later => Disambiguation::Later,
+            Dis::Reject => Disambiguation::Reject,
+        }
+    }
+}
+
+impl<'a> Ctx<'a> {
+    /// `ZonedWith::build` after the civil fields are settled (documentation of
+    /// OffsetConflict and Disambiguation): AlwaysOffset -> the instant is civil
+    /// minus the given offset; Reject -> the given offset must be one the zone
+    /// has for that civil datetime (never in a gap), else error; PreferOffset
+    /// -> the given offset if it is one of the two offsets of a fold (for an
+    /// unambiguous datetime the zone's own offset is the answer either way),
+    /// else, and for AlwaysTimeZone, the disambiguation strategy: compatible =
+    /// earlier instant in a fold / later reading in a gap, earlier, later,
+    /// reject = error unless unambiguous. The second component names the kind
+    /// of the civil datetime in the zone.
+    fn with_resolve(&self, c2: i128, given: i64, conf: Conf, dis: Dis) -> (Want, &'static str) {
+        if c2 < conv::dt_min_ns() || c2 > conv::dt_max_ns() {
+            return (Want::Err, "range");
+        }
+        let c_sec = floor_sec(c2);
+        let frac = c2.rem_euclid(NS);
+        if self.tainted(c_sec) {
+            return (Want::Taint, "taint");
+        }
+        let fin = |t_sec: i64| -> Want {
+            let x = t_sec as i128 * NS + frac;
+            if !self.in_ts(x) {
+                Want::Err
+            } else if self.tainted(floor_sec(x)) {
+                Want::Taint
+            } else {
+                Want::Ok(x)
+            }
+        };
+        let z = self.z();
+        let res = resolve(z, c_sec);
+        let kind = match res {
+            Res::Unique(_) => "unique",
+            Res::Fold(..) => "fold",
+            Res::Gap(_) => "gap",
+            Res::Undef => "undefined",
+        };
+        if conf == Conf::AlwaysOffset {
+            return (fin(c_sec - given), kind);
+        }
+        let w = match res {
+            Res::Undef => Want::Undef,
+            Res::Unique(t) => {
+                if conf == Conf::Reject && c_sec - t != given {
+                    Want::Err
+                } else {
+                    fin(t)
+                }
+            }
+            Res::Fold(a, b) => {
+                let pick = if conf == Conf::AlwaysTz {
+                    None
+                } else if c_sec - a == given {
+                    Some(a)
+                } else if c_sec - b == given {
+                    Some(b)
+                } else {
+                    None
+                };
+                match (pick, conf, dis) {
+                    (Some(t), _, _) => {
+                        if t == b {
+                            self.t.with_kept_offset_in_fold.fetch_add(1, Relaxed);
+                        }
+                        fin(t)
+                    }
+                    (None, Conf::Reject, _) => Want::Err,
+                    (None, _, Dis::Compat) | (None, _, Dis::Earlier) => fin(a),
+                    (None, _, Dis::Later) => fin(b),
+                    (None, _, Dis::Reject) => Want::Err,
+                }
+            }
+            Res::Gap(k) => match (conf, dis) {
+                (Conf::Reject, _) | (_, Dis::Reject) => Want::Err,
+                (_, Dis::Compat) | (_, Dis::Later) => fin(c_sec - off(z, k - 1)),
+                (_, Dis::Earlier) => fin(c_sec - off(z, k)),
+            },
+        };
+        (w, kind)
+    }
+}
+
+// ---------------------------------------------------------------------------
 // enumeration
 // ---------------------------------------------------------------------------
 
 const H: i128 = 3_600 * NS;
+const NTHS: [i64; 7] = [0, 1, -1, 2, -2, 53, -53];
+const NTHS_OF_MONTH: [i64; 8] = [0, 1, -1, 4, 5, -5, 6, -6];
+/// sub-neighbourhood from which the second block of the span pool is run
+const SUB_NB: [i128; 7] = [0, 1, -1, H, -H, 24 * H, -24 * H];
 const QUICK_EXTRA: &[&str] = &["America/Toronto", "Pacific/Kwajalein", "Asia/Manila", "America/Juneau", "Pacific/Kanton", "Asia/Pyongyang"];
 
 fn neighbourhood() -> Vec<i128> {
@@ -696,8 +1196,14 @@ fn neighbourhood() -> Vec<i128> {
 
 /// the transitions (piece indices) of a zone selected for the tier
 fn select_transitions(z: &rtz::Zone, thorough: bool, is_rep: bool) -> Vec<usize> {
+    // a POSIX-string zone has rule transitions in every year of the range
+    let posix = z.n_recorded == 0 && z.footer.is_some() && z.version == 0;
     let year_ok = |y: i64| -> bool {
-        if thorough && is_rep {
+        if posix && thorough {
+            (1965..=2045).contains(&y) || y == 2100 || y == 2400 || y >= 9990 || y <= -9990
+        } else if posix {
+            (1969..=1971).contains(&y) || (2023..=2025).contains(&y) || y == 2038 || y == 2100 || y == 9998 || y == -9998
+        } else if thorough && is_rep {
             y <= 2500 || y % 100 == 0 || y >= 9990
         } else if thorough {
             y <= 2040 || y == 2100 || y == 9998
@@ -774,6 +1280,9 @@ fn main() {
                 srcs.push(ZoneSrc { name: n.to_string(), origin: "sys".into(), bytes, aliases: vec![] });
             }
         }
+        // the synthetic zones (slim): back-to-back transitions, a 48-hour gap,
+        // a skipped and a repeated civil day, sub-minute DST, +-24:59:59
+        srcs.extend(zones::synth("slim"));
     }
     if thorough {
         let have: BTreeSet<String> = srcs.iter().map(|z| z.name.clone()).collect();
@@ -801,13 +1310,34 @@ fn main() {
             }
         })
         .collect();
+    // zones that are not TZif data: POSIX rule strings and fixed offsets (the
+    // arithmetic is the same code, the civil -> instant step is not)
+    let mut loaded = loaded;
+    for ps in ["EST5EDT,M3.2.0,M11.1.0", "<+1030>-10:30<+11>-11,M10.1.0,M4.1.0"] {
+        match zones::load_posix_pair(ps) {
+            Ok(p) => loaded.push((true, p)),
+            Err(e) => panic!("POSIX zone {}: {}", ps, e),
+        }
+    }
+    for (utoff, name) in [(19_800, "+05:30"), (93_599, "+25:59:59"), (-93_599, "-25:59:59")] {
+        loaded.push((
+            true,
+            Pair {
+                name: name.to_string(),
+                origin: "fixed".into(),
+                model: rtz::zone_fixed(utoff, name),
+                jiff: TimeZone::fixed(Offset::from_seconds(utoff).expect("offset in range")),
+            },
+        ));
+    }
+    let loaded = loaded;
     t.zones.fetch_add(loaded.len() as u64, Relaxed);
 
 
     // -------------------------------------------------------------------
     // spans
     // -------------------------------------------------------------------
-    let run_span = |cx: &Ctx, sec: &str, start: i128, only_cal: Option<i32>, ops_err: bool| -> (u64, u64) {
+    let run_span = |cx: &Ctx, sec: &str, start: i128, only_cal: Option<i32>, ops_err: u8, both_blocks: bool| -> (u64, u64) {
         let Some(z) = cx.start(sec, start) else { return (0, 0) };
         let head = cx.case_head(start);
         let mut n = 0u64;
@@ -818,10 +1348,26 @@ fn main() {
                     continue;
                 }
             }
+            if ps.second && !both_blocks {
+                continue;
+            }
             let pa = parts(&ps.sp, 1);
             let pb = parts(&ps.sp, -1);
             let add = cx.model_add(start, &pa);
             let sub = cx.model_add(start, &pb);
+            for w in [add, sub] {
+                if let Want::Ok(_) = w {
+                    if ps.big {
+                        t.big_cal_ok.fetch_add(1, Relaxed);
+                        if ps.sp[..4].iter().filter(|&&x| x != 0).count() + ps.sp[4..].iter().any(|&x| x != 0) as usize >= 2 {
+                            t.big_cal_mixed_ok.fetch_add(1, Relaxed);
+                        }
+                    }
+                    if pa.cal_nonzero && ps.sp[4..].iter().filter(|&&x| x != 0).count() == 1 {
+                        t.time_single_with_cal_ok.fetch_add(1, Relaxed);
+                    }
+                }
+            }
             let case = |op: &str| format!("{} {} {}", head, op, fmt_sp(&ps.sp));
             k += six_ops!(cx, sec, "span", &z, ps.span, add, sub, pa.sign, ops_err, case);
             n += 1;
@@ -835,11 +1381,17 @@ fn main() {
             let cx = Ctx { r: &r, t: &t, pair, taint, ts_min, ts_max };
             let ks = select_transitions(&pair.model, thorough, *is_rep);
             t.transitions.fetch_add(ks.len() as u64, Relaxed);
+            // the second block of the pool and the extra argument / operator
+            // forms probe the span decomposition and trivial forwarders, not
+            // the zone's data: in the thorough tier they are run from every
+            // zone's anchors, but around transitions only for the
+            // representative, synthetic, POSIX and fixed zones
+            let wide = !thorough || *is_rep || pair.origin != "sys";
             ks.par_iter().for_each(|&k| {
                 let tr = pair.model.pieces[k].start as i128 * NS;
                 let (mut n, mut c, mut s) = (0u64, 0u64, 0u64);
                 for d in &nb {
-                    let (a, b) = run_span(&cx, "span", tr + d, None, *d == 0);
+                    let (a, b) = run_span(&cx, "span", tr + d, None, if *d != 0 { 0 } else if wide { 7 } else { 1 }, wide && SUB_NB.contains(d));
                     n += a;
                     c += b;
                     s += 1;
@@ -858,7 +1410,7 @@ fn main() {
                             let id = if ci < half { ci as i32 + 1 } else { -((ci - half) as i32 + 1) };
                             let Some(c0) = inverse_civil(target, csp) else { continue };
                             let Some(st) = cx.compat(c0, false) else { continue };
-                            let (a, b) = run_span(&cx, "span", st, Some(id), false);
+                            let (a, b) = run_span(&cx, "span", st, Some(id), 0, wide);
                             n += a;
                             c += b;
                             s += 1;
@@ -874,7 +1426,7 @@ fn main() {
             let an = anchors(&cx);
             let (mut n, mut c) = (0u64, 0u64);
             for &st in &an {
-                let (a, b) = run_span(&cx, "span", st, None, true);
+                let (a, b) = run_span(&cx, "span", st, None, if wide { 3 } else { 1 }, true);
                 n += a;
                 c += b;
             }
@@ -895,25 +1447,52 @@ fn main() {
             sd.push(d);
             sd.push(-d);
         }
-        let sd_extreme = [SignedDuration::MIN, SignedDuration::MAX];
-        let ud: Vec<(u64, u32)> = vec![(0, 0), (0, 1), (3_600, 0), (86_400, 0), (u64::MAX, 999_999_999)];
+        let sd_extreme = [
+            SignedDuration::MIN,
+            SignedDuration::MAX,
+            // negation of the right-hand side leaves the signed range
+            SignedDuration::new(i64::MIN, 0),
+            SignedDuration::new(i64::MIN, -1),
+            SignedDuration::new(i64::MIN + 1, 0),
+            SignedDuration::new(i64::MAX, 0),
+        ];
+        // 2^63 s is where the unsigned -> signed conversion (add) and the
+        // negation of an unsigned duration (sub) change code path
+        let p63 = 1u64 << 63;
+        let ud: Vec<(u64, u32)> = vec![
+            (0, 0),
+            (0, 1),
+            (3_600, 0),
+            (86_400, 0),
+            (u64::MAX, 999_999_999),
+            (p63 - 1, 999_999_999),
+            (p63, 0),
+            (p63, 999_999_999),
+            (p63 + 1, 0),
+        ];
         loaded.par_iter().for_each(|(is_rep, pair)| {
             let taint = taint_windows(&pair.model);
             let cx = Ctx { r: &r, t: &t, pair, taint, ts_min, ts_max };
             let ks = select_transitions(&pair.model, thorough, *is_rep);
             let mut starts: BTreeSet<i128> = BTreeSet::new();
+            // starts from which the compound-assignment / by-reference forms
+            // are exercised too (incl. into their panic)
+            let mut full: BTreeSet<i128> = BTreeSet::new();
             for &k in &ks {
                 let tr = pair.model.pieces[k].start as i128 * NS;
                 for d in [-25 * H, -H, -1, 0, 1, H, 25 * H] {
                     starts.insert(tr + d);
                 }
+                full.insert(tr);
             }
-            for x in [ts_min, ts_min + 1, 0, ts_max - 1, ts_max] {
+            for x in [ts_min, ts_min + 1, ts_min + NS, 0, ts_max - 1, ts_max, ts_max - 999_999_999, ts_max - 999_999_999 - NS] {
                 starts.insert(x);
+                full.insert(x);
             }
             let starts: Vec<i128> = starts.into_iter().collect();
             starts.par_iter().for_each(|&start| {
                 let Some(z) = cx.start("duration", start) else { return };
+                let mask: u8 = if full.contains(&start) && (!thorough || *is_rep || pair.origin != "sys") { 7 } else { 1 };
                 let head = cx.case_head(start);
                 let mut k = 0u64;
                 let mut n = 0u64;
@@ -933,11 +1512,19 @@ fn main() {
                     ds.push(d);
                     ds.push(-d);
                 }
+                // whole seconds that reach the last / first whole second of
+                // the range and one second beyond (the seconds-only path of
+                // Timestamp arithmetic when the start has no fraction)
+                let s0 = floor_sec(start) as i128;
+                for d in [zones::TS_MAX_SEC as i128 - s0, zones::TS_MAX_SEC as i128 - s0 + 1, zones::TS_MIN_SEC as i128 - s0, zones::TS_MIN_SEC as i128 - s0 - 1] {
+                    ds.push(d * NS);
+                    ds.push(-d * NS);
+                }
                 for &d in &ds {
                     let dur = SignedDuration::new((d / NS) as i64, (d % NS) as i32);
                     assert_eq!(dur.as_nanos(), d);
                     let case = |op: &str| format!("{} {} SignedDuration({}ns)", head, op, d);
-                    k += six_ops!(&cx, "duration", "SignedDuration", &z, dur, exact(d), exact(-d), d.signum() as i8, true, case);
+                    k += six_ops!(&cx, "duration", "SignedDuration", &z, dur, exact(d), exact(-d), d.signum() as i8, mask, case);
                     n += 1;
                     // the same as a time-only span {s, ns}
                     let s = d / NS;
@@ -948,14 +1535,19 @@ fn main() {
                         sp[9] = f as i64;
                         let span = to_span(&sp);
                         let case = |op: &str| format!("{} {} {}", head, op, fmt_sp(&sp));
-                        k += six_ops!(&cx, "duration", "span", &z, span, exact(d), exact(-d), d.signum() as i8, true, case);
+                        k += six_ops!(&cx, "duration", "span", &z, span, exact(d), exact(-d), d.signum() as i8, mask, case);
                         n += 1;
                     }
+                }
+                for (i, sp) in reset_spans().into_iter().enumerate() {
+                    let case = |op: &str| format!("{} {} reset-span#{}(h=1)", head, op, i);
+                    k += six_ops!(&cx, "duration", "span", &z, sp, exact(H), exact(-H), 1, mask, case);
+                    n += 1;
                 }
                 for dur in sd_extreme {
                     let d = dur.as_nanos();
                     let case = |op: &str| format!("{} {} SignedDuration({}ns)", head, op, d);
-                    k += six_ops!(&cx, "duration", "SignedDuration", &z, dur, exact(d), exact(-d), d.signum() as i8, true, case);
+                    k += six_ops!(&cx, "duration", "SignedDuration", &z, dur, exact(d), exact(-d), d.signum() as i8, mask, case);
                     n += 1;
                 }
                 let mut uds = ud.clone();
@@ -973,7 +1565,7 @@ fn main() {
                     let dur = UDur::new(s, f);
                     let d = s as i128 * NS + f as i128;
                     let case = |op: &str| format!("{} {} std::Duration({}s,{}ns)", head, op, s, f);
-                    k += six_ops!(&cx, "duration", "std::Duration", &z, dur, exact(d), exact(-d), d.signum() as i8, true, case);
+                    k += six_ops!(&cx, "duration", "std::Duration", &z, dur, exact(d), exact(-d), d.signum() as i8, mask, case);
                     n += 1;
                 }
                 r.add_states(n);
@@ -1041,6 +1633,101 @@ fn main() {
                 let w = cx.civil_to_want(cal::days_from_civil(y, m, cal::days_in_month(y, m)) as i128 * DAY_NS + tod);
                 cx.checked("day_ops", "Zoned::last_of_month", "value", &|| format!("{} last_of_month", head), guard(|| z.last_of_month().ok().map(|v| cx.view(&v))), w);
                 k += 4;
+                // first_of_year / last_of_year: same rule
+                let w = cx.civil_to_want(cal::days_from_civil(y, 1, 1) as i128 * DAY_NS + tod);
+                cx.checked("day_ops", "Zoned::first_of_year", "value", &|| format!("{} first_of_year", head), guard(|| z.first_of_year().ok().map(|v| cx.view(&v))), w);
+                let w = cx.civil_to_want(cal::days_from_civil(y, 12, 31) as i128 * DAY_NS + tod);
+                cx.checked("day_ops", "Zoned::last_of_year", "value", &|| format!("{} last_of_year", head), guard(|| z.last_of_year().ok().map(|v| cx.view(&v))), w);
+                k += 2;
+                // nth_weekday (counted from the neighbouring day, never the
+                // day itself) and nth_weekday_of_month: civil date by plain
+                // counting, same clock time, compatible
+                let cur_wd = cal::weekday_from_days(day) as i64;
+                for wd in 0..7i64 {
+                    let jwd = Weekday::from_sunday_zero_offset(wd as i8).unwrap();
+                    for nth in NTHS {
+                        let w = if nth == 0 {
+                            Want::Err
+                        } else if nth > 0 {
+                            let first = match (wd - cur_wd).rem_euclid(7) {
+                                0 => 7,
+                                x => x,
+                            };
+                            shift(first + 7 * (nth - 1))
+                        } else {
+                            let first = match (cur_wd - wd).rem_euclid(7) {
+                                0 => 7,
+                                x => x,
+                            };
+                            shift(-(first + 7 * (-nth - 1)))
+                        };
+                        cx.count_want(w);
+                        cx.checked("day_ops", "Zoned::nth_weekday", "value", &|| format!("{} nth_weekday({},{})", head, nth, wd), guard(|| z.nth_weekday(nth as i32, jwd).ok().map(|v| cx.view(&v))), w);
+                        k += 1;
+                    }
+                    // the days of this month that fall on `wd`, by counting
+                    let e0 = cal::days_from_civil(y, m, 1);
+                    let in_month: Vec<i64> = (e0..e0 + cal::days_in_month(y, m)).filter(|&e| cal::weekday_from_days(e) as i64 == wd).collect();
+                    for nth in NTHS_OF_MONTH {
+                        let pick = if nth > 0 {
+                            in_month.get(nth as usize - 1).copied()
+                        } else if nth < 0 && (-nth) as usize <= in_month.len() {
+                            Some(in_month[in_month.len() - (-nth) as usize])
+                        } else {
+                            None
+                        };
+                        let w = match pick {
+                            None => Want::Err,
+                            Some(e) => {
+                                t.nth_of_month_found.fetch_add(1, Relaxed);
+                                cx.civil_to_want(e as i128 * DAY_NS + tod)
+                            }
+                        };
+                        cx.count_want(w);
+                        cx.checked("day_ops", "Zoned::nth_weekday_of_month", "value", &|| format!("{} nth_weekday_of_month({},{})", head, nth, wd), guard(|| z.nth_weekday_of_month(nth as i8, jwd).ok().map(|v| cx.view(&v))), w);
+                        k += 1;
+                    }
+                }
+                // calendar facts and field accessors of the Zoned itself: those
+                // of the civil datetime the model shows at this instant
+                {
+                    let (_, _, d) = cal::civil_from_days(day);
+                    let doy = cal::day_of_year(y, m, d);
+                    let leap = cal::is_leap(y);
+                    let sec = (tod / NS) as i64;
+                    let f = (tod % NS) as i64;
+                    let want = (
+                        (y, m, d, sec / 3_600, (sec / 60) % 60, sec % 60),
+                        (f / 1_000_000, (f / 1_000) % 1_000, f % 1_000, f),
+                        (cur_wd, doy, cal::days_in_month(y, m), cal::days_in_year(y), leap),
+                        if leap && doy == 60 { None } else if leap && doy > 60 { Some(doy - 1) } else { Some(doy) },
+                        if y >= 1 { (y, true) } else { (1 - y, false) },
+                    );
+                    match guard(|| {
+                        (
+                            (z.year() as i64, z.month() as i64, z.day() as i64, z.hour() as i64, z.minute() as i64, z.second() as i64),
+                            (z.millisecond() as i64, z.microsecond() as i64, z.nanosecond() as i64, z.subsec_nanosecond() as i64),
+                            (z.weekday().to_sunday_zero_offset() as i64, z.day_of_year() as i64, z.days_in_month() as i64, z.days_in_year() as i64, z.in_leap_year()),
+                            z.day_of_year_no_leap().map(|x| x as i64),
+                            {
+                                let (ey, era) = z.era_year();
+                                (ey as i64, era == jiff::civil::Era::CE)
+                            },
+                        )
+                    }) {
+                        Err(p) => r.viol("day_ops", &format!("Zoned field accessors/{}", panic_sig(&p)), head.clone(), p),
+                        Ok(got) => {
+                            if got != want {
+                                r.viol("day_ops", "Zoned field accessors/value", head.clone(), format!("jiff {:?} model {:?}", got, want));
+                            }
+                            let dt_ok = guard(|| conv::dt_civil_ns(jiff::civil::DateTime::from_parts(z.date(), z.time())));
+                            if dt_ok != Ok(civil) {
+                                r.viol("day_ops", "Zoned::date+time/value", head.clone(), format!("jiff {:?} model {}", dt_ok, civil));
+                            }
+                        }
+                    }
+                    k += 2;
+                }
 
                 // start_of_day: least instant whose civil date is `day`
                 let midnight = day * 86_400;
@@ -1081,8 +1768,18 @@ fn main() {
                                 82_800 => t.day_23h.fetch_add(1, Relaxed),
                                 90_000 => t.day_25h.fetch_add(1, Relaxed),
                                 86_400 => 0,
-                                _ => t.day_other.fetch_add(1, Relaxed),
+                                x => {
+                                    if x == 84_600 || x == 88_200 {
+                                        t.day_half.fetch_add(1, Relaxed);
+                                    } else if x >= 169_200 {
+                                        t.day_47h_up.fetch_add(1, Relaxed);
+                                    }
+                                    t.day_other.fetch_add(1, Relaxed)
+                                }
                             };
+                        } else if day < cal::max_day() - 2 {
+                            // the next civil date does not exist in this zone
+                            t.day_before_skipped.fetch_add(1, Relaxed);
                         }
                     }
                     cx.count_want(want);
@@ -1164,87 +1861,155 @@ fn main() {
                 let head = cx.case_head(start);
                 let o0 = zm.utoff_at(floor_sec(start)) as i64;
                 let civil = cx.local(start);
-                let day = civil.div_euclid(DAY_NS) as i64;
-                let tod = civil.rem_euclid(DAY_NS);
-                let (y, m, d) = cal::civil_from_days(day);
-                let (hh, mi, ss, ns) = ((tod / H) as i64, ((tod / (60 * NS)) % 60) as i64, ((tod / NS) % 60) as i64, (tod % NS) as i64);
-                // (field, value) edits
-                let mut edits: Vec<(&str, i64)> = vec![];
-                for v in [0, 1, 2, 3, 12, 23] {
-                    edits.push(("hour", v));
-                }
-                for v in [0, 30, 59] {
-                    edits.push(("minute", v));
-                }
-                for v in [0, 59] {
-                    edits.push(("second", v));
-                }
-                for v in [0, 999_999_999] {
-                    edits.push(("subsec_nanosecond", v));
-                }
-                for v in [1, 15, 28, 29, 30, 31] {
-                    edits.push(("day", v));
-                }
-                for v in 1..=12 {
-                    edits.push(("month", v));
-                }
-                for v in [y - 1, y + 1, 2024, 2023, 9999, -9999] {
-                    if (cal::MIN_YEAR..=cal::MAX_YEAR).contains(&v) {
-                        edits.push(("year", v));
-                    }
-                }
+                let f0 = Fields::of(civil);
+                let y = f0.y;
                 let mut k = 0u64;
-                for (f, v) in edits {
-                    let (mut y2, mut m2, mut d2, mut h2, mut mi2, mut s2, mut n2) = (y, m, d, hh, mi, ss, ns);
-                    match f {
-                        "hour" => h2 = v,
-                        "minute" => mi2 = v,
-                        "second" => s2 = v,
-                        "subsec_nanosecond" => n2 = v,
-                        "day" => d2 = v,
-                        "month" => m2 = v,
-                        _ => y2 = v,
+
+                // ---- every setter, default options (keep the original
+                // offset when it is valid for the new civil datetime, else
+                // compatible)
+                let mut edits: Vec<Vec<Ed>> = vec![vec![]];
+                for v in [0, 1, 2, 3, 12, 23, 24, -1] {
+                    edits.push(vec![Ed::Hour(v)]);
+                }
+                for v in [0, 30, 59, 60, -1] {
+                    edits.push(vec![Ed::Minute(v)]);
+                }
+                for v in [0, 59, 60, -1] {
+                    edits.push(vec![Ed::Second(v)]);
+                }
+                for v in [0, 999_999_999, 1_000_000_000, -1] {
+                    edits.push(vec![Ed::Subsec(v)]);
+                }
+                for v in [0, 1, 999, 1_000, -1] {
+                    edits.push(vec![Ed::Ms(v)]);
+                    edits.push(vec![Ed::Us(v)]);
+                    edits.push(vec![Ed::Ns(v)]);
+                }
+                for v in [1, 15, 28, 29, 30, 31, 0, 32, -1] {
+                    edits.push(vec![Ed::Day(v)]);
+                }
+                for v in 0..=13 {
+                    edits.push(vec![Ed::Month(v)]);
+                }
+                for v in [y - 1, y + 1, 2024, 2023, 9999, -9999, 10_000, -10_000] {
+                    edits.push(vec![Ed::Year(v)]);
+                }
+                for v in [1, 2023, 2024, 9999, 0, 10_000, -1] {
+                    edits.push(vec![Ed::EraCE(v)]);
+                }
+                for v in [1, 2, 5, 10_000, 0, 10_001, -1] {
+                    edits.push(vec![Ed::EraBCE(v)]);
+                }
+                for v in [1, 59, 60, 61, 365, 366, 0, 367, -1] {
+                    edits.push(vec![Ed::Doy(v)]);
+                    edits.push(vec![Ed::DoyNl(v)]);
+                }
+                for (dy, dm, dd) in [(y, f0.m, 1), (y, 12, 31), (2024, 2, 29), (2024, 3, 10), (2024, 11, 3), (2011, 12, 30), (-9999, 1, 1), (9999, 12, 31)] {
+                    edits.push(vec![Ed::Date(dy, dm, dd)]);
+                }
+                // the civil dates next to this one (as tomorrow / yesterday)
+                for dd in [-1i64, 1] {
+                    let e = civil.div_euclid(DAY_NS) as i64 + dd;
+                    if e >= cal::min_day() && e <= cal::max_day() {
+                        let (a, b, c) = cal::civil_from_days(e);
+                        edits.push(vec![Ed::Date(a, b, c)]);
                     }
-                    let want = if !cal::valid_date(y2, m2, d2) {
-                        t.with_invalid.fetch_add(1, Relaxed);
-                        Want::Err
-                    } else {
-                        let c2 = cal::days_from_civil(y2, m2, d2) as i128 * DAY_NS + (h2 * 3_600 + mi2 * 60 + s2) as i128 * NS + n2 as i128;
-                        let c_sec = floor_sec(c2);
-                        if cx.tainted(c_sec) {
-                            Want::Taint
-                        } else {
-                            let pre = zm.preimages(c_sec);
-                            if pre.len() >= 3 {
-                                Want::Undef
-                            } else if let Some(p) = pre.iter().find(|p| off(zm, p.1) == o0) {
-                                if pre.len() == 2 {
-                                    t.with_kept_offset_in_fold.fetch_add(1, Relaxed);
-                                }
-                                let x = p.0 as i128 * NS + c2.rem_euclid(NS);
-                                if cx.in_ts(x) { Want::Ok(x) } else { Want::Err }
-                            } else {
-                                cx.civil_to_want(c2)
+                }
+                for (a, b, c, d) in [(0, 0, 0, 0), (0, 30, 0, 0), (1, 30, 0, 0), (2, 30, 0, 0), (3, 0, 0, 0), (12, 0, 0, 500_000_000), (23, 59, 59, 999_999_999)] {
+                    edits.push(vec![Ed::Time(a, b, c, d)]);
+                }
+                // several fields at once: validated together, in any order
+                for mv in [2, 4, 7] {
+                    edits.push(vec![Ed::Month(mv), Ed::Day(31)]);
+                    edits.push(vec![Ed::Day(31), Ed::Month(mv)]);
+                }
+                edits.push(vec![Ed::Year(2023), Ed::Month(2), Ed::Day(29)]);
+                edits.push(vec![Ed::Day(29), Ed::Month(2), Ed::Year(2024)]);
+                edits.push(vec![Ed::Year(2023), Ed::Doy(366)]);
+                edits.push(vec![Ed::Year(2024), Ed::Doy(366)]);
+                edits.push(vec![Ed::Year(2024), Ed::DoyNl(365)]);
+                edits.push(vec![Ed::Hour(2), Ed::Minute(30)]);
+                edits.push(vec![Ed::Hour(1), Ed::Minute(59), Ed::Second(59), Ed::Subsec(999_999_999)]);
+                edits.push(vec![Ed::Ms(1), Ed::Us(2), Ed::Ns(3)]);
+                edits.push(vec![Ed::Ms(1), Ed::Subsec(5)]);
+                edits.push(vec![Ed::Subsec(5), Ed::Ns(1)]);
+                edits.push(vec![Ed::Year(2000), Ed::EraCE(1900)]);
+                edits.push(vec![Ed::EraCE(1900), Ed::Year(2000)]);
+                edits.push(vec![Ed::Date(2024, 3, 10), Ed::Time(2, 30, 0, 0)]);
+                edits.push(vec![Ed::Date(2024, 11, 3), Ed::Time(1, 30, 0, 0)]);
+
+                for eds in &edits {
+                    let want = match apply_edits(&f0, eds) {
+                        None => {
+                            t.with_invalid.fetch_add(1, Relaxed);
+                            Want::Err
+                        }
+                        Some(c2) => cx.with_resolve(c2, o0, Conf::Prefer, Dis::Compat).0,
+                    };
+                    let want = if eds.is_empty() { Want::Ok(start) } else { want };
+                    cx.count_want(want);
+                    let case = || format!("{} with(){}", head, fmt_edits(eds));
+                    let got = guard(|| build_edits(z.with(), eds).build().ok().map(|v| cx.view(&v)));
+                    cx.checked("with", &format!("Zoned::with(){}", sig_edits(eds)), "value", &case, got, want);
+                    k += 1;
+                }
+
+                // ---- the options: offset x offset_conflict x disambiguation
+                // on edits that move the clock across / into the transition
+                let mut offs: Vec<Option<i64>> = vec![None, Some(o0)];
+                let pi = zm.piece_index_at(floor_sec(start));
+                for j in [pi.wrapping_sub(1), pi + 1] {
+                    if j < zm.pieces.len() {
+                        offs.push(Some(off(zm, j)));
+                    }
+                }
+                for o in [o0 + 3_600, o0 - 1] {
+                    offs.push(Some(o));
+                }
+                let mut seen = BTreeSet::new();
+                offs.retain(|o| seen.insert(*o) && o.map_or(true, |s| s.abs() <= 93_599));
+                // hours next to the start's own (starts are within 1 h 30 of
+                // the transition, so these cross it or land in its window),
+                // the half hour, and the neighbouring days
+                let mut opt_edits: Vec<Vec<Ed>> = vec![vec![], vec![Ed::Minute(30)]];
+                for dh in [-2i64, -1, 1, 2] {
+                    opt_edits.push(vec![Ed::Hour((f0.h + dh).rem_euclid(24))]);
+                }
+                for dd in [-1i64, 1] {
+                    if f0.d + dd >= 1 {
+                        opt_edits.push(vec![Ed::Day(f0.d + dd)]);
+                    }
+                }
+                // (the strategy mapping does not depend on the zone's data:
+                // representative and synthetic zones only)
+                let with_options = !thorough || *is_rep || pair.origin != "sys";
+                for eds in opt_edits.iter().filter(|_| with_options) {
+                    let Some(c2) = apply_edits(&f0, eds) else { continue };
+                    for &given in &offs {
+                        for conf in [Conf::Prefer, Conf::AlwaysOffset, Conf::AlwaysTz, Conf::Reject] {
+                            for dis in [Dis::Compat, Dis::Earlier, Dis::Later, Dis::Reject] {
+                                let (want, kind) = cx.with_resolve(c2, given.unwrap_or(o0), conf, dis);
+                                cx.count_want(want);
+                                match (want, kind) {
+                                    (Want::Err, _) => t.with_opt_err.fetch_add(1, Relaxed),
+                                    (Want::Ok(_), "gap") => t.with_opt_gap.fetch_add(1, Relaxed),
+                                    (Want::Ok(_), "fold") => t.with_opt_fold.fetch_add(1, Relaxed),
+                                    _ => 0,
+                                };
+                                let case = || format!("{} with(){}{}.offset_conflict({:?}).disambiguation({:?})", head, fmt_edits(eds), given.map_or(String::new(), |o| format!(".offset({})", o)), conf, dis);
+                                let got = guard(|| {
+                                    let mut w = build_edits(z.with(), eds);
+                                    if let Some(o) = given {
+                                        w = w.offset(Offset::from_seconds(o as i32).unwrap());
+                                    }
+                                    w.offset_conflict(conf.to()).disambiguation(dis.to()).build().ok().map(|v| cx.view(&v))
+                                });
+                                cx.checked("with", &format!("Zoned::with().offset_conflict({:?}).disambiguation({:?})", conf, dis), &format!("value:{}", kind), &case, got, want);
+                                k += 1;
                             }
                         }
-                    };
-                    cx.count_want(want);
-                    let case = || format!("{} with().{}({})", head, f, v);
-                    let got = guard(|| {
-                        let w = z.with();
-                        let w = match f {
-                            "hour" => w.hour(v as i8),
-                            "minute" => w.minute(v as i8),
-                            "second" => w.second(v as i8),
-                            "subsec_nanosecond" => w.subsec_nanosecond(v as i32),
-                            "day" => w.day(v as i8),
-                            "month" => w.month(v as i8),
-                            _ => w.year(v as i16),
-                        };
-                        w.build().ok().map(|v| cx.view(&v))
-                    });
-                    cx.checked("with", &format!("Zoned::with().{}", f), "value", &case, got, want);
-                    k += 1;
+                    }
                 }
                 r.add_states(1);
                 r.add_transitions(k);
@@ -1252,6 +2017,137 @@ fn main() {
             });
         });
     });
+
+    // -------------------------------------------------------------------
+    // Timestamp arithmetic: time units move the instant exactly; a span with
+    // any non-zero calendar unit (days and up) is an error
+    // -------------------------------------------------------------------
+    r.section("timestamp", || {
+        let mut starts: BTreeSet<i128> = vf::pools::timestamps().into_iter().map(|x| x.as_nanosecond()).collect();
+        for x in [ts_min + NS, ts_max - 999_999_999 - NS, 1_710_055_800 * NS, -1_601_670_600 * NS + 5] {
+            starts.insert(x);
+        }
+        let starts: Vec<i128> = starts.into_iter().collect();
+        let in_ts = |x: i128| x >= ts_min && x <= ts_max;
+        starts.par_iter().for_each(|&start| {
+            let ts = Timestamp::from_nanosecond(start).unwrap();
+            let head = format!("Timestamp t={}", conv::fmt_ns(start));
+            let mut k = 0u64;
+            let mut n = 0u64;
+            // (kind, delta or None for "has calendar units")
+            let one = |kind: &str, case: &dyn Fn(&str) -> String, delta: Option<i128>, neg_hint: bool, got: [Result<Option<i128>, String>; 8]| -> u64 {
+                // got: checked_add, checked_sub, saturating_add, saturating_sub, +, -, +=, -=
+                let names = ["checked_add", "checked_sub", "saturating_add", "saturating_sub", "+", "-", "+=", "-="];
+                for (i, g) in got.iter().enumerate() {
+                    let dir: i128 = if i % 2 == 0 { 1 } else { -1 };
+                    let op = format!("Timestamp::{}({})", names[i], kind);
+                    let saturating = i == 2 || i == 3;
+                    let operator = i >= 4;
+                    // the exact result, None = error
+                    let want: Option<i128> = match delta {
+                        None => None,
+                        Some(d) => {
+                            let x = start + dir * d;
+                            if in_ts(x) {
+                                Some(x)
+                            } else if saturating {
+                                let down = if d == 0 { neg_hint != (dir < 0) } else { (dir * d) < 0 };
+                                Some(if down { ts_min } else { ts_max })
+                            } else {
+                                None
+                            }
+                        }
+                    };
+                    match (g, want) {
+                        (Err(p), None) if operator && (p.contains("overflow") || p.contains("failed")) => {
+                            t.ts_op_panics.fetch_add(1, Relaxed);
+                        }
+                        (Err(p), _) => r.viol("timestamp", &format!("{}/{}", op, panic_sig(p)), case(names[i]), p.clone()),
+                        (Ok(None), None) => {
+                            t.ts_err.fetch_add(1, Relaxed);
+                        }
+                        (Ok(Some(x)), Some(w)) if *x == w => {
+                            t.ts_ok.fetch_add(1, Relaxed);
+                        }
+                        (Ok(a), b) => {
+                            let cls = if delta.is_none() { "calendar-units-accepted" } else { "value" };
+                            r.viol("timestamp", &format!("{}/{}", op, cls), case(names[i]), format!("jiff {:?} model {:?}", a, b));
+                        }
+                    }
+                }
+                8
+            };
+            macro_rules! eight {
+                ($x:expr) => {{
+                    let x = $x;
+                    let v = |r: Result<Timestamp, jiff::Error>| r.ok().map(|t| t.as_nanosecond());
+                    [
+                        guard(|| v(ts.checked_add(x))),
+                        guard(|| v(ts.checked_sub(x))),
+                        guard(|| v(ts.saturating_add(x))),
+                        guard(|| v(ts.saturating_sub(x))),
+                        guard(|| Some((ts + x).as_nanosecond())),
+                        guard(|| Some((ts - x).as_nanosecond())),
+                        guard(|| { let mut m = ts; m += x; Some(m.as_nanosecond()) }),
+                        guard(|| { let mut m = ts; m -= x; Some(m.as_nanosecond()) }),
+                    ]
+                }};
+            }
+            for ps in &pool {
+                let pa = parts(&ps.sp, 1);
+                let delta = if pa.cal_nonzero { None } else { Some(pa.time_ns) };
+                if delta.is_none() {
+                    t.ts_cal_spans.fetch_add(1, Relaxed);
+                }
+                let case = |op: &str| format!("{} {} {}", head, op, fmt_sp(&ps.sp));
+                k += one("span", &case, delta, pa.sign < 0, eight!(ps.span));
+                n += 1;
+            }
+            // time-only spans whose calendar fields were set and reset to zero
+            for (i, sp) in reset_spans().into_iter().enumerate() {
+                let case = |op: &str| format!("{} {} reset-span#{}(h=1)", head, op, i);
+                k += one("span", &case, Some(H), false, eight!(sp));
+                n += 1;
+            }
+            // absolute durations
+            let range = ts_max - ts_min;
+            let mut ds: Vec<i128> = vec![0];
+            for d in [1, NS, H, 24 * H, range, range + 1, ts_max - start, ts_max - start + 1, start - ts_min, start - ts_min + 1] {
+                ds.push(d);
+                ds.push(-d);
+            }
+            for &d in &ds {
+                let dur = SignedDuration::new((d / NS) as i64, (d % NS) as i32);
+                let case = |op: &str| format!("{} {} SignedDuration({}ns)", head, op, d);
+                k += one("SignedDuration", &case, Some(d), d < 0, eight!(dur));
+                n += 1;
+                if d >= 0 {
+                    let ud = UDur::new((d / NS) as u64, (d % NS) as u32);
+                    let case = |op: &str| format!("{} {} std::Duration({}ns)", head, op, d);
+                    k += one("std::Duration", &case, Some(d), false, eight!(ud));
+                    n += 1;
+                }
+            }
+            for dur in [SignedDuration::MIN, SignedDuration::MAX, SignedDuration::new(i64::MIN, 0), SignedDuration::new(i64::MAX, 0)] {
+                let d = dur.as_nanos();
+                let case = |op: &str| format!("{} {} SignedDuration({}ns)", head, op, d);
+                k += one("SignedDuration", &case, Some(d), d < 0, eight!(dur));
+                n += 1;
+            }
+            let p63 = 1u64 << 63;
+            for (s, f) in [(u64::MAX, 999_999_999u32), (p63 - 1, 999_999_999), (p63, 0), (p63, 999_999_999), (p63 + 1, 0)] {
+                let ud = UDur::new(s, f);
+                let d = s as i128 * NS + f as i128;
+                let case = |op: &str| format!("{} {} std::Duration({}s,{}ns)", head, op, s, f);
+                k += one("std::Duration", &case, Some(d), false, eight!(ud));
+                n += 1;
+            }
+            r.add_states(n);
+            r.add_transitions(k);
+            r.add_validated(k);
+        });
+    });
+
 
     // -------------------------------------------------------------------
     let g = |a: &AtomicU64| a.load(Relaxed);
@@ -1276,8 +2172,23 @@ fn main() {
     r.count("civil_days_23h", g(&t.day_23h));
     r.count("civil_days_25h", g(&t.day_25h));
     r.count("civil_days_other_length", g(&t.day_other));
+    r.count("civil_days_23h30_or_24h30", g(&t.day_half));
+    r.count("civil_days_47h_or_longer", g(&t.day_47h_up));
+    r.count("civil_day_followed_by_a_skipped_date", g(&t.day_before_skipped));
     r.count("with_kept_original_offset_in_fold", g(&t.with_kept_offset_in_fold));
     r.count("with_invalid_field_combination", g(&t.with_invalid));
+    r.count("with_options_error_expected", g(&t.with_opt_err));
+    r.count("with_options_resolved_in_gap", g(&t.with_opt_gap));
+    r.count("with_options_resolved_in_fold", g(&t.with_opt_fold));
+    r.count("nth_weekday_of_month_exists", g(&t.nth_of_month_found));
+    r.count("compound_assignment_and_by_reference_forms", g(&t.assign_ops));
+    r.count("big_calendar_part_result_in_range", g(&t.big_cal_ok));
+    r.count("big_calendar_part_mixed_with_second_unit_result_in_range", g(&t.big_cal_mixed_ok));
+    r.count("calendar_part_plus_single_time_unit_result_in_range", g(&t.time_single_with_cal_ok));
+    r.count("timestamp_spans_with_calendar_units", g(&t.ts_cal_spans));
+    r.outcome("timestamp_result_ok", g(&t.ts_ok));
+    r.outcome("timestamp_result_err", g(&t.ts_err));
+    r.outcome("timestamp_operator_panicked_as_documented", g(&t.ts_op_panics));
     r.outcome("intermediate_civil_in_gap", g(&t.gap));
     r.outcome("intermediate_civil_in_fold", g(&t.fold));
     r.outcome("intermediate_civil_unambiguous", g(&t.unique));
@@ -1292,17 +2203,25 @@ fn main() {
         r.require(g(&t.err) > 0 && g(&t.op_panics) > 0 && g(&t.sat_min) > 0 && g(&t.sat_max) > 0, "overflow in both directions occurs");
         r.require(g(&t.sod_not_midnight) > 0 && g(&t.sod_gap_at_midnight) > 0, "days that do not begin at midnight occur");
         r.require(g(&t.day_23h) > 0 && g(&t.day_25h) > 0, "23-hour and 25-hour days occur");
+        r.require(g(&t.day_half) > 0 && g(&t.day_47h_up) > 0 && g(&t.day_before_skipped) > 0, "half-hour DST days, a civil day of 47 hours or more and a skipped civil date occur");
         r.require(g(&t.clamped) > 0, "month/year additions clamp the day");
         r.require(g(&t.with_kept_offset_in_fold) > 0, "with() keeps the later offset inside a fold");
+        r.require(g(&t.with_opt_err) > 0 && g(&t.with_opt_gap) > 0 && g(&t.with_opt_fold) > 0, "with() options are exercised on gaps, folds and rejected combinations");
+        r.require(g(&t.nth_of_month_found) > 0, "nth_weekday_of_month finds weekdays");
+        r.require(g(&t.assign_ops) > 0, "compound assignment operators are exercised");
+        r.require(g(&t.big_cal_mixed_ok) > 0, "day counts beyond the absolute epoch-day range, mixed with a second unit, give in-range results");
+        r.require(g(&t.time_single_with_cal_ok) > 0, "calendar units plus exactly one time unit occur");
+        r.require(g(&t.ts_ok) > 0 && g(&t.ts_err) > 0 && g(&t.ts_op_panics) > 0 && g(&t.ts_cal_spans) > 0, "Timestamp arithmetic: exact results, errors, documented panics, calendar-unit spans");
     }
     r.sample(json!({"case": "sys:America/New_York 2024-03-09T02:30-05:00 checked_add span{d=1}", "model": "civil 2024-03-10T02:30 is in the gap -> 2024-03-10T03:30-04:00 (instant 1710055800)"}));
     r.sample(json!({"case": "sys:America/New_York 2024-11-02T01:30-04:00 checked_add span{d=1,h=1}", "model": "civil 2024-11-03T01:30 is in the fold -> earlier instant 01:30-04:00, + 1h exact -> 01:30-05:00"}));
     r.sample(json!({"case": "sys:America/Sao_Paulo 2015-10-18T12:00-02:00 start_of_day", "model": "first instant of the civil day is 01:00-02:00 (gap begins at midnight)"}));
     r.note(format!(
-        "zones: {} loaded; per selected transition: T (+) {{0,+-1ns,+-1s,+-30min,+-1h,+-1h30,+-23h,+-24h,+-25h,+-2d}} x {} spans x 6 operations, plus landers (starts from which each calendar span lands at the start/middle/last ns of the transition's gap/fold window) and zone anchors (pool dates x 4 times of day, limits)",
+        "zones: {} loaded (TZif, 2 POSIX strings, 3 fixed offsets); per selected transition: T (+) {{0,+-1ns,+-1s,+-30min,+-1h,+-1h30,+-23h,+-24h,+-25h,+-2d}} x {} spans (first block; the second block of {} spans from T (+) {{0,+-1ns,+-1h,+-24h}}) x 6 operations (x 12 at T itself and the anchors: += / -= / by-reference forms), plus landers (starts from which each calendar span lands at the start/middle/last ns of the transition's gap/fold window) and zone anchors (pool dates x 4 times of day, limits)",
         g(&t.zones),
-        pool.len()
+        pool.iter().filter(|p| !p.second).count(),
+        pool.iter().filter(|p| p.second).count()
     ));
-    let _: Option<TimeZone> = None;
+    r.note("with(): every setter with in- and out-of-range values, multi-field chains, and {unset, current, neighbouring, bogus offsets} x 4 offset_conflict x 4 disambiguation on 8 clock edits around every transition (thorough: representative, synthetic, POSIX and fixed zones); day_ops: + first/last_of_year, nth_weekday {0,+-1,+-2,+-53} x 7 weekdays, nth_weekday_of_month {0,+-1,4,+-5,+-6} x 7, field accessors; timestamp: pool timestamps x whole span pool x {checked, saturating, operator, assign} x {add, sub}".to_string());
     r.finish();
 }
